@@ -271,7 +271,7 @@ impl Property for C07 {
     }
 
     fn budget(tier: Tier) -> u64 {
-        tier.pick(12_000, 200_000)
+        tier.pick(12_000, 150_000)
     }
 
     fn rule() -> &'static str {
